@@ -11,6 +11,9 @@ def tv_job(job):
     elif builder == 'roundtrip':          # python classes -> to_yaml -> from_yaml
         from . import yamlio
         ct = yamlio.roundtrip_template(build_python(spec))
+    elif builder in ('yaml_rewritten', 'roundtrip_rewritten'):   # the file held another model before (same path)
+        from . import yamlio
+        ct = yamlio.build_rewritten(spec, 'yaml' if builder == 'yaml_rewritten' else 'roundtrip')
     else:                                 # 'yaml' | 'yaml_roundtrip'
         from . import yamlio
         ct = yamlio.build_yaml(spec, roundtrip=(builder == 'yaml_roundtrip'))
